@@ -10,6 +10,7 @@ import MocModel.Drv.Auth
 import MocModel.Drv.Gate
 import MocModel.Drv.Merge
 import MocModel.Drv.Router
+import MocModel.Drv.RouterConc
 import MocModel.Drv.Sqlite
 import MocModel.Drv.Term
 open Moc.Drv
@@ -28,6 +29,7 @@ def handlers : List (String × Handler) := [
   ("ws", GateD.handler),
   ("merge", MergeD.handler),
   ("router", RouterD.handler),
+  ("routerconc", RouterConcD.handler),
   ("sqlite", SqliteD.handler),
   ("c13", TermD.handler)
 ]
